@@ -106,6 +106,11 @@ func (c *Cluster) UpsertRegionHeartbeat(meta manifest.RegionMeta) error {
 	if meta.ID == 0 {
 		return ErrInvalidRegionID
 	}
+	if len(meta.EndKey) > 0 && bytes.Compare(meta.StartKey, meta.EndKey) >= 0 {
+		// An empty or inverted range contains no key, never "overlaps" and
+		// would shadow a containing region in the sorted range index.
+		return fmt.Errorf("%w: region=%d start key is not below end key", ErrInvalidRegionRange, meta.ID)
+	}
 
 	c.mu.Lock()
 	defer c.mu.Unlock()
